@@ -7,6 +7,7 @@ from optlang.symbolics import Zero
 
 from ..core import get_solution
 from ..util import create_stoichiometric_matrix, nullspace
+from ..util.solver import linear_reaction_coefficients
 from .helpers import normalize_cutoff
 
 
@@ -181,7 +182,11 @@ def loopless_solution(
         fluxes = sol.fluxes
         opt = sol.objective_value
     else:
-        opt = model.slim_optimize()
+        # the objective value of the given flux distribution
+        opt = sum(
+            coefficient * fluxes[rxn.id]
+            for rxn, coefficient in linear_reaction_coefficients(model).items()
+        )
 
     with model:
         prob = model.problem
